@@ -122,121 +122,126 @@ def run(index, rep, tier):
     rep.rule("R15.5", "the callback walk (Node.apply) pops only below its start node: the upward climb is bounded by the start node")
 
     # ---- R15.1
-    canon = {
-        "preorder": {"two_state": False, "discipline": "LIFO", "order": ["yield", "extend"], "reversed": True},
-        "postorder": {"two_state": True, "discipline": "LIFO", "order": ["yield", "repush", "extend"], "reversed": True},
-    }
-    for kind, nq, eq in (("preorder", NODE + ".preorder_iter", TREE + ".preorder_edge_iter"), ("postorder", NODE + ".postorder_iter", TREE + ".postorder_edge_iter")):
-        nf, ef = index.function(nq), index.function(eq)
-        ns, es = stack_schema(nf), stack_schema(ef, edge=True)
-        c = canon[kind]
-        for who, f, s in (("node", nf, ns), ("edge", ef, es)):
-            ext = s["extend"] if isinstance(s["extend"], dict) else {}
-            checks = [
-                ("work-list discipline", s["discipline"], c["discipline"]),
-                ("two-state protocol", s["two_state"], c["two_state"]),
-                ("event order", s["order"], c["order"]),
-                ("children pushed reversed", ext.get("reversed"), c["reversed"]),
-                ("loop runs while the work list is non-empty", s["guard"], True),
-            ]
-            if kind == "postorder":
-                checks.append(("children pushed unvisited", ext.get("state"), False))
-                checks.append(("yield only on the visited marker", any("state" in g for ch in s["yield_guards"] for g in ch), True))
-            for what, got, want in checks:
-                rep.check(got == want, "R15.1", f.qualname, "%s: %s" % (what, got), fn_where(f), "%s %s iterator: %s = %s" % (kind, who, what, want),
-                          "%s: the %s traversal's %s is %s, expected %s: nodes are visited in the wrong order, more than once or not at all on some shapes" % (f.qualname, kind, what, got, want))
-        for k in ("init", "two_state", "discipline", "order", "extend", "repush", "yield_guards"):
-            rep.check(ns[k] == es[k], "R15.1", ef.qualname, "schema component %s differs from %s: %s vs %s" % (k, nf.name, es[k], ns[k]), fn_where(ef),
-                      "%s and %s agree on %s" % (ef.name, nf.name, k),
-                      "%s is an independent copy of %s but their traversal schemas differ in `%s` (edge: %s, node: %s): the edge iterator no longer yields the edges of the nodes its node counterpart yields, in the same order" % (ef.qualname, nf.qualname, k, es[k], ns[k]))
-    # internal variants: same lambdas modulo x -> x._head_node, and they delegate to the right base
-    for nq, eq, nbase, ebase in ((NODE + ".preorder_internal_node_iter", TREE + ".preorder_internal_edge_iter", "preorder_iter", "preorder_edge_iter"),
-                                 (NODE + ".postorder_internal_node_iter", TREE + ".postorder_internal_edge_iter", "postorder_iter", "postorder_edge_iter")):
-        nf, ef = index.function(nq), index.function(eq)
-        nl, el = lambda_texts(nf), lambda_texts(ef, edge=True)
-        rep.check(nl == el and len(nl) >= 4, "R15.1", ef.qualname, "filter lambdas %s vs %s" % (el, nl), fn_where(ef), "%s composes the same internal-node filters as %s (under x -> x._head_node)" % (ef.name, nf.name),
-                  "%s composes different filters from %s: edge %s / node %s" % (ef.qualname, nf.qualname, el, nl))
-        for f, base in ((nf, nbase), (ef, ebase)):
-            rets = [n for n in walk_no_nested(f.node) if isinstance(n, ast.Return)]
-            fv = get_kwarg(rets[0].value, "filter_fn") if len(rets) == 1 and isinstance(rets[0].value, ast.Call) else None
-            ok = len(rets) == 1 and isinstance(rets[0].value, ast.Call) and call_name(rets[0].value) == base and isinstance(fv, ast.Name) and \
-                any(isinstance(a, ast.Assign) and norm(a.targets[0]) == fv.id and isinstance(a.value, ast.Lambda) for a in walk_no_nested(f.node))
-            rep.check(ok, "R15.1", f.qualname, "delegates to %s(filter_fn=f)" % base, fn_where(f), "%s delegates to %s with the composed filter" % (f.name, base),
-                      "%s no longer returns %s(filter_fn=f)" % (f.qualname, base))
-        # the internal filter really selects non-leaves and honours exclude_seed
-        ok = all(("x._child_nodes" in b) for nm, b in nl if nm == "f") and any(b == "x._parent_node is not None" for nm, b in nl if nm == "froot")
-        rep.check(ok, "R15.1", nf.qualname, "internal filter content", fn_where(nf), "internal filter = has children (and has a parent when the seed is excluded)",
-                  "%s: the internal-node filter no longer tests `_child_nodes` / `_parent_node is not None`" % nf.qualname)
-    # level order: FIFO, children in order
-    lf = index.function(NODE + ".levelorder_iter")
-    pops = [c for c in calls_in(lf.node) if call_name(c) == "pop"]
-    ok = len(pops) == 1 and pops[0].args and const_value(pops[0].args[0], -1) == 0
-    rep.check(ok, "R15.1", lf.qualname, "queue discipline", fn_where(lf), "level-order pops from the front (FIFO)", "levelorder_iter no longer pops from the front of its queue: depths are not visited in non-decreasing order")
-    exts = [c for c in calls_in(lf.node) if call_name(c) == "extend"]
-    ok = len(exts) == 1 and "reversed" not in norm(exts[0]) and "child_nodes" in norm(exts[0].args[0])
-    if ok and isinstance(exts[0].args[0], ast.Name):
-        pass
-    rep.check(bool(exts) and "reversed" not in norm(exts[0]), "R15.1", lf.qualname, "children appended in order", fn_where(lf), "level-order appends children left to right", "levelorder_iter appends children reversed")
-    first_yield = [n for n in walk_no_nested(lf.node) if isinstance(n, ast.Yield)]
-    rep.check(bool(first_yield) and norm(first_yield[0].value) == "self", "R15.1", lf.qualname, "start node first", fn_where(lf), "level-order yields the start node first", "levelorder_iter no longer yields the start node first")
-    # wrapper edge iterators
-    for name, base in (("levelorder_edge_iter", "levelorder_iter"), ("inorder_edge_iter", "inorder_iter"), ("leaf_edge_iter", "leaf_iter")):
-        f = index.function(TREE + "." + name)
-        loops = [l for l in walk_no_nested(f.node) if isinstance(l, ast.For)]
-        ok = len(loops) == 1 and isinstance(loops[0].iter, ast.Call) and call_name(loops[0].iter) == base and norm(loops[0].iter.func.value) == "self.seed_node" \
-            and isinstance(get_kwarg(loops[0].iter, "filter_fn"), ast.Name)
-        ys = [n for n in walk_no_nested(f.node) if isinstance(n, ast.Yield)]
-        ok = ok and len(ys) == 1 and norm(ys[0].value) in (norm(loops[0].target) + ".edge", norm(loops[0].target) + "._edge")
-        lam = [b for nm, b in lambda_texts(f) if nm == "f"]
-        ok = ok and lam == ["filter_fn(x.edge)"]
-        rep.check(ok, "R15.1", f.qualname, "wrapper over " + base, fn_where(f), "%s wraps seed_node.%s, yields nd.edge and applies the caller's filter to the edge" % (name, base),
-                  "%s is no longer `for nd in self.seed_node.%s(filter_fn=lambda x: filter_fn(x.edge)): yield nd.edge`" % (f.qualname, base))
+    with rep.section("R15.1"):
+        canon = {
+            "preorder": {"two_state": False, "discipline": "LIFO", "order": ["yield", "extend"], "reversed": True},
+            "postorder": {"two_state": True, "discipline": "LIFO", "order": ["yield", "repush", "extend"], "reversed": True},
+        }
+        for kind, nq, eq in (("preorder", NODE + ".preorder_iter", TREE + ".preorder_edge_iter"), ("postorder", NODE + ".postorder_iter", TREE + ".postorder_edge_iter")):
+            nf, ef = index.function(nq), index.function(eq)
+            ns, es = stack_schema(nf), stack_schema(ef, edge=True)
+            c = canon[kind]
+            for who, f, s in (("node", nf, ns), ("edge", ef, es)):
+                ext = s["extend"] if isinstance(s["extend"], dict) else {}
+                checks = [
+                    ("work-list discipline", s["discipline"], c["discipline"]),
+                    ("two-state protocol", s["two_state"], c["two_state"]),
+                    ("event order", s["order"], c["order"]),
+                    ("children pushed reversed", ext.get("reversed"), c["reversed"]),
+                    ("loop runs while the work list is non-empty", s["guard"], True),
+                ]
+                if kind == "postorder":
+                    checks.append(("children pushed unvisited", ext.get("state"), False))
+                    checks.append(("yield only on the visited marker", any("state" in g for ch in s["yield_guards"] for g in ch), True))
+                for what, got, want in checks:
+                    rep.check(got == want, "R15.1", f.qualname, "%s: %s" % (what, got), fn_where(f), "%s %s iterator: %s = %s" % (kind, who, what, want),
+                              "%s: the %s traversal's %s is %s, expected %s: nodes are visited in the wrong order, more than once or not at all on some shapes" % (f.qualname, kind, what, got, want))
+            for k in ("init", "two_state", "discipline", "order", "extend", "repush", "yield_guards"):
+                rep.check(ns[k] == es[k], "R15.1", ef.qualname, "schema component %s differs from %s: %s vs %s" % (k, nf.name, es[k], ns[k]), fn_where(ef),
+                          "%s and %s agree on %s" % (ef.name, nf.name, k),
+                          "%s is an independent copy of %s but their traversal schemas differ in `%s` (edge: %s, node: %s): the edge iterator no longer yields the edges of the nodes its node counterpart yields, in the same order" % (ef.qualname, nf.qualname, k, es[k], ns[k]))
+        # internal variants: same lambdas modulo x -> x._head_node, and they delegate to the right base
+        for nq, eq, nbase, ebase in ((NODE + ".preorder_internal_node_iter", TREE + ".preorder_internal_edge_iter", "preorder_iter", "preorder_edge_iter"),
+                                     (NODE + ".postorder_internal_node_iter", TREE + ".postorder_internal_edge_iter", "postorder_iter", "postorder_edge_iter")):
+            nf, ef = index.function(nq), index.function(eq)
+            nl, el = lambda_texts(nf), lambda_texts(ef, edge=True)
+            rep.check(nl == el and len(nl) >= 4, "R15.1", ef.qualname, "filter lambdas %s vs %s" % (el, nl), fn_where(ef), "%s composes the same internal-node filters as %s (under x -> x._head_node)" % (ef.name, nf.name),
+                      "%s composes different filters from %s: edge %s / node %s" % (ef.qualname, nf.qualname, el, nl))
+            for f, base in ((nf, nbase), (ef, ebase)):
+                rets = [n for n in walk_no_nested(f.node) if isinstance(n, ast.Return)]
+                fv = get_kwarg(rets[0].value, "filter_fn") if len(rets) == 1 and isinstance(rets[0].value, ast.Call) else None
+                ok = len(rets) == 1 and isinstance(rets[0].value, ast.Call) and call_name(rets[0].value) == base and isinstance(fv, ast.Name) and \
+                    any(isinstance(a, ast.Assign) and norm(a.targets[0]) == fv.id and isinstance(a.value, ast.Lambda) for a in walk_no_nested(f.node))
+                rep.check(ok, "R15.1", f.qualname, "delegates to %s(filter_fn=f)" % base, fn_where(f), "%s delegates to %s with the composed filter" % (f.name, base),
+                          "%s no longer returns %s(filter_fn=f)" % (f.qualname, base))
+            # the internal filter really selects non-leaves and honours exclude_seed
+            ok = all(("x._child_nodes" in b) for nm, b in nl if nm == "f") and any(b == "x._parent_node is not None" for nm, b in nl if nm == "froot")
+            rep.check(ok, "R15.1", nf.qualname, "internal filter content", fn_where(nf), "internal filter = has children (and has a parent when the seed is excluded)",
+                      "%s: the internal-node filter no longer tests `_child_nodes` / `_parent_node is not None`" % nf.qualname)
+        # level order: FIFO, children in order
+        lf = index.function(NODE + ".levelorder_iter")
+        pops = [c for c in calls_in(lf.node) if call_name(c) == "pop"]
+        ok = len(pops) == 1 and pops[0].args and const_value(pops[0].args[0], -1) == 0
+        rep.check(ok, "R15.1", lf.qualname, "queue discipline", fn_where(lf), "level-order pops from the front (FIFO)", "levelorder_iter no longer pops from the front of its queue: depths are not visited in non-decreasing order")
+        exts = [c for c in calls_in(lf.node) if call_name(c) == "extend"]
+        ok = len(exts) == 1 and "reversed" not in norm(exts[0]) and "child_nodes" in norm(exts[0].args[0])
+        if ok and isinstance(exts[0].args[0], ast.Name):
+            pass
+        rep.check(bool(exts) and "reversed" not in norm(exts[0]), "R15.1", lf.qualname, "children appended in order", fn_where(lf), "level-order appends children left to right", "levelorder_iter appends children reversed")
+        first_yield = [n for n in walk_no_nested(lf.node) if isinstance(n, ast.Yield)]
+        rep.check(bool(first_yield) and norm(first_yield[0].value) == "self", "R15.1", lf.qualname, "start node first", fn_where(lf), "level-order yields the start node first", "levelorder_iter no longer yields the start node first")
+        # wrapper edge iterators
+        for name, base in (("levelorder_edge_iter", "levelorder_iter"), ("inorder_edge_iter", "inorder_iter"), ("leaf_edge_iter", "leaf_iter")):
+            f = index.function(TREE + "." + name)
+            loops = [l for l in walk_no_nested(f.node) if isinstance(l, ast.For)]
+            ok = len(loops) == 1 and isinstance(loops[0].iter, ast.Call) and call_name(loops[0].iter) == base and norm(loops[0].iter.func.value) == "self.seed_node" \
+                and isinstance(get_kwarg(loops[0].iter, "filter_fn"), ast.Name)
+            ys = [n for n in walk_no_nested(f.node) if isinstance(n, ast.Yield)]
+            ok = ok and len(ys) == 1 and norm(ys[0].value) in (norm(loops[0].target) + ".edge", norm(loops[0].target) + "._edge")
+            lam = [b for nm, b in lambda_texts(f) if nm == "f"]
+            ok = ok and lam == ["filter_fn(x.edge)"]
+            rep.check(ok, "R15.1", f.qualname, "wrapper over " + base, fn_where(f), "%s wraps seed_node.%s, yields nd.edge and applies the caller's filter to the edge" % (name, base),
+                      "%s is no longer `for nd in self.seed_node.%s(filter_fn=lambda x: filter_fn(x.edge)): yield nd.edge`" % (f.qualname, base))
 
     # ---- R15.2
-    for cq in (NODE, EDGE):
-        ci = index.klass(cq)
-        bad = [(c.name, m) for c in index.mro(ci) for m in ("__bool__", "__len__", "__nonzero__") if m in c.methods]
-        rep.check(not bad, "R15.2", cq, "defines %s" % bad, "%s:%d" % (ci.module.relpath, ci.node.lineno), "%s defines neither __bool__ nor __len__ (MRO: %s)" % (ci.name, [c.name for c in index.mro(ci)]),
-                  "%s (or a base) defines %s: the internal/leaf filters `(x and ... ) or None` and `x.is_leaf() and x or None` rely on every node/edge being truthy; a falsy node (e.g. a leaf with __len__ == 0) silently disappears from the leaf and internal iterators" % (cq, bad))
+    with rep.section("R15.2"):
+        for cq in (NODE, EDGE):
+            ci = index.klass(cq)
+            bad = [(c.name, m) for c in index.mro(ci) for m in ("__bool__", "__len__", "__nonzero__") if m in c.methods]
+            rep.check(not bad, "R15.2", cq, "defines %s" % bad, "%s:%d" % (ci.module.relpath, ci.node.lineno), "%s defines neither __bool__ nor __len__ (MRO: %s)" % (ci.name, [c.name for c in index.mro(ci)]),
+                      "%s (or a base) defines %s: the internal/leaf filters `(x and ... ) or None` and `x.is_leaf() and x or None` rely on every node/edge being truthy; a falsy node (e.g. a leaf with __len__ == 0) silently disappears from the leaf and internal iterators" % (cq, bad))
 
     # ---- R15.3
-    wrappers = [("preorder_node_iter", "preorder_iter"), ("preorder_internal_node_iter", "preorder_internal_node_iter"), ("postorder_node_iter", "postorder_iter"),
-                ("postorder_internal_node_iter", "postorder_internal_node_iter"), ("levelorder_node_iter", "levelorder_iter"), ("level_order_node_iter", "levelorder_iter"),
-                ("inorder_node_iter", "inorder_iter"), ("leaf_node_iter", "leaf_iter"), ("leaf_iter", "leaf_iter"), ("ageorder_node_iter", "ageorder_iter")]
-    for name, target in wrappers:
-        f = index.function(TREE + "." + name)
-        cs = [c for c in calls_in(f.node) if call_name(c) == target and norm(c.func.value) == "self.seed_node"]
-        ok = len(cs) == 1
-        rep.check(ok, "R15.3", f.qualname, "calls self.seed_node.%s" % target, fn_where(f), "%s delegates to seed_node.%s" % (name, target), "%s no longer delegates to self.seed_node.%s" % (f.qualname, target))
-        if not ok:
-            continue
-        for p in f.all_params:
-            if p == "self":
+    with rep.section("R15.3"):
+        wrappers = [("preorder_node_iter", "preorder_iter"), ("preorder_internal_node_iter", "preorder_internal_node_iter"), ("postorder_node_iter", "postorder_iter"),
+                    ("postorder_internal_node_iter", "postorder_internal_node_iter"), ("levelorder_node_iter", "levelorder_iter"), ("level_order_node_iter", "levelorder_iter"),
+                    ("inorder_node_iter", "inorder_iter"), ("leaf_node_iter", "leaf_iter"), ("leaf_iter", "leaf_iter"), ("ageorder_node_iter", "ageorder_iter")]
+        for name, target in wrappers:
+            f = index.function(TREE + "." + name)
+            cs = [c for c in calls_in(f.node) if call_name(c) == target and norm(c.func.value) == "self.seed_node"]
+            ok = len(cs) == 1
+            rep.check(ok, "R15.3", f.qualname, "calls self.seed_node.%s" % target, fn_where(f), "%s delegates to seed_node.%s" % (name, target), "%s no longer delegates to self.seed_node.%s" % (f.qualname, target))
+            if not ok:
                 continue
-            v = get_kwarg(cs[0], p)
-            okp = v is not None and norm(v) == p
-            rep.check(okp, "R15.3", f.qualname, "parameter %s not forwarded" % p, fn_where(f, cs[0]), "%s forwards %s=%s" % (name, p, p),
-                      "%s does not forward its `%s` argument to seed_node.%s: the filter/option is silently ignored" % (f.qualname, p, target))
-    f = index.function(TREE + ".apply")
-    cs = [c for c in calls_in(f.node) if call_name(c) == "apply"]
-    ok = len(cs) == 1 and [norm(a) for a in cs[0].args] + [norm(k.value) for k in cs[0].keywords] == ["before_fn", "after_fn", "leaf_fn"]
-    rep.check(ok, "R15.3", f.qualname, "apply forwards its callbacks in order", fn_where(f), "Tree.apply forwards (before_fn, after_fn, leaf_fn)", "Tree.apply no longer forwards its three callbacks in order")
+            for p in f.all_params:
+                if p == "self":
+                    continue
+                v = get_kwarg(cs[0], p)
+                okp = v is not None and norm(v) == p
+                rep.check(okp, "R15.3", f.qualname, "parameter %s not forwarded" % p, fn_where(f, cs[0]), "%s forwards %s=%s" % (name, p, p),
+                          "%s does not forward its `%s` argument to seed_node.%s: the filter/option is silently ignored" % (f.qualname, p, target))
+        f = index.function(TREE + ".apply")
+        cs = [c for c in calls_in(f.node) if call_name(c) == "apply"]
+        ok = len(cs) == 1 and [norm(a) for a in cs[0].args] + [norm(k.value) for k in cs[0].keywords] == ["before_fn", "after_fn", "leaf_fn"]
+        rep.check(ok, "R15.3", f.qualname, "apply forwards its callbacks in order", fn_where(f), "Tree.apply forwards (before_fn, after_fn, leaf_fn)", "Tree.apply no longer forwards its three callbacks in order")
 
     # ---- R15.4
-    f = index.function(TREE + ".__len__")
-    loops = [l for l in walk_no_nested(f.node) if isinstance(l, ast.For)]
-    ok = len(loops) == 1 and norm(loops[0].iter) in ("self.seed_node.leaf_iter()", "self.leaf_node_iter()", "self.seed_node.leaf_nodes()")
-    incs = [n for n in walk_no_nested(f.node) if isinstance(n, ast.AugAssign) and const_value(n.value) == 1]
-    direct = [n for n in walk_no_nested(f.node) if isinstance(n, ast.Return) and "leaf" in norm(n.value)]
-    rep.check((ok and len(incs) == 1) or bool(direct), "R15.4", f.qualname, "counts leaves", fn_where(f), "len(tree) counts seed_node.leaf_iter()", "Tree.__len__ no longer counts the leaves of the tree")
+    with rep.section("R15.4"):
+        f = index.function(TREE + ".__len__")
+        loops = [l for l in walk_no_nested(f.node) if isinstance(l, ast.For)]
+        ok = len(loops) == 1 and norm(loops[0].iter) in ("self.seed_node.leaf_iter()", "self.leaf_node_iter()", "self.seed_node.leaf_nodes()")
+        incs = [n for n in walk_no_nested(f.node) if isinstance(n, ast.AugAssign) and const_value(n.value) == 1]
+        direct = [n for n in walk_no_nested(f.node) if isinstance(n, ast.Return) and "leaf" in norm(n.value)]
+        rep.check((ok and len(incs) == 1) or bool(direct), "R15.4", f.qualname, "counts leaves", fn_where(f), "len(tree) counts seed_node.leaf_iter()", "Tree.__len__ no longer counts the leaves of the tree")
 
     # ---- R15.5
-    f = index.function(NODE + ".apply")
-    climbs = [l for l in ast.walk(f.node) if isinstance(l, ast.While) and any(isinstance(n, ast.Assign) and norm(n.value).endswith("._parent_node") for n in ast.walk(l)) and l is not f.node.body[-1]]
-    climbs = [l for l in climbs if "_parent_node" in norm(l.test)]
-    if not climbs:
-        raise AnalysisError("R15.5: upward climb in Node.apply not recognised")
-    for l in climbs:
-        bounded = "self" in names_in(l.test) or any(isinstance(n, ast.Compare) and "self" in names_in(n) for s_ in l.body for n in ast.walk(s_))
-        rep.check(bounded, "R15.5", f.qualname, "climb `%s` not bounded by the start node" % norm(l.test)[:70], fn_where(f, l), "the upward climb in Node.apply stops at the start node",
-                  "Node.apply climbs towards the root with `while %s` and never compares with the start node `self`: started on a subtree whose root is the last child of its parent, it calls after_fn on ancestors that never received before_fn (bracket mismatch)" % norm(l.test)[:90])
+    with rep.section("R15.5"):
+        f = index.function(NODE + ".apply")
+        climbs = [l for l in ast.walk(f.node) if isinstance(l, ast.While) and any(isinstance(n, ast.Assign) and norm(n.value).endswith("._parent_node") for n in ast.walk(l)) and l is not f.node.body[-1]]
+        climbs = [l for l in climbs if "_parent_node" in norm(l.test)]
+        if not climbs:
+            raise AnalysisError("R15.5: upward climb in Node.apply not recognised")
+        for l in climbs:
+            bounded = "self" in names_in(l.test) or any(isinstance(n, ast.Compare) and "self" in names_in(n) for s_ in l.body for n in ast.walk(s_))
+            rep.check(bounded, "R15.5", f.qualname, "climb `%s` not bounded by the start node" % norm(l.test)[:70], fn_where(f, l), "the upward climb in Node.apply stops at the start node",
+                      "Node.apply climbs towards the root with `while %s` and never compares with the start node `self`: started on a subtree whose root is the last child of its parent, it calls after_fn on ancestors that never received before_fn (bracket mismatch)" % norm(l.test)[:90])
